@@ -1,9 +1,25 @@
 (* C20 — the shipped lexer and parser implement the documented grammar.
    The grammar data (g4_lexer_rules, g4_token_types, g4_parser_rules) is regenerated from
    parser/JsonQuery.g4 on every run; the model lexer interprets it. *)
-From Rules Require Import Eval Layout ParserProofs.
+From Rules Require Import Eval Layout ParserProofs RegexProofs LexerProofs.
 From Coq Require Import String.
 Open Scope N_scope.
+
+(* the model lexer computes exactly the maximal-munch tokenisation of the lexer rules of the
+   .g4 (for ANY rule list: longest non-empty match at each position, the first rule on ties),
+   and fails exactly when the text has none; rule bodies mean the declarative [matches] *)
+Theorem C20_lexer_is_maximal_munch :
+  forall s toks, lex g4_lexer_rules s = Some toks <-> tokens_spec g4_lexer_rules s toks.
+Proof. exact (lex_correct g4_lexer_rules). Qed.
+Theorem C20_lexer_rejects_iff_no_tokenisation :
+  forall s, lex g4_lexer_rules s = None <-> forall toks, ~ tokens_spec g4_lexer_rules s toks.
+Proof. exact (lex_none g4_lexer_rules). Qed.
+Theorem C20_longest_match : forall r s k, longest_match r s = Some k <-> is_longest r s k.
+Proof. exact longest_match_some. Qed.
+Theorem C20_derivative : forall c r s, matches (deriv c r) s <-> matches r (c :: s).
+Proof. exact deriv_matches. Qed.
+Print Assumptions C20_lexer_is_maximal_munch.
+Print Assumptions C20_lexer_rejects_iff_no_tokenisation.
 
 (* the parser model reads every sentence printed from a rule tree with the structure the
    grammar prescribes (completeness on all printed trees, all depths) *)
